@@ -116,7 +116,7 @@ let run_yparse (arg : string) =
     match String.split_on_char ':' t with
     | [ty; s; n; f] -> { Model.ttyp = z_of_dec ty; Model.ts = coq_string (unhex s); Model.tn = z_of_dec n; Model.tf = z_of_hex f }
     | _ -> failwith ("bad token " ^ t)) (String.split_on_char ';' arg) in
-  print_endline (ocaml_string (Model.show_outcome (Model.parse_tokens (nat_of_int 100000) toks)))
+  print_endline (ocaml_string (Model.show_outcome (Model.parse_tokens (Model.parse_budget toks) toks)))
 
 (* mtokens HEX / mparse HEX: Model/Tokenizer.v on the bytes of the string *)
 let run_mtokens (h : string) =
@@ -124,7 +124,7 @@ let run_mtokens (h : string) =
   print_endline (ocaml_string (Model.show_tokout (Model.tokenize b)))
 let run_mparse (h : string) =
   let b = bytes_of_string (unhex (if h = "-" then "" else h)) in
-  print_endline (ocaml_string (Model.show_outcome (Model.parse_string (fun _ -> nat_of_int 100000) b)))
+  print_endline (ocaml_string (Model.show_outcome (Model.parse_sql b)))
 
 (* mschema TOKS|TOKS|... : the table's CREATE TABLE tokens, then the tokens of each of its indexes ("!" = did not tokenize) *)
 let toks_of (arg : string) = if arg = "" || arg = "-" then [] else List.map (fun t ->
